@@ -202,7 +202,17 @@ var emitAuditedContracts = map[string]struct {
 	span int // effect with the flag true minus base (1 everywhere else)
 	why  string
 }{
+	"(*compiledSequenceExpr).emitGetter": {0, 1, "contract as usual; see emitAuditedPaths for the empty-sequence path"},
 	"(*compiledSpreadCallArgument).emitGetter": {0, 0, "a spread argument is only emitted between startVariadic and endVariadic: pushSpread moves the iterated values into the open variadic area, so the wanted form nets 0 and is never emitted with putOnStack=false by compiledCallExpr"},
+}
+
+// emitAuditedPaths: one named path result that is wrong on paper and unreachable in fact.
+var emitAuditedPaths = map[string]struct {
+	flag bool
+	val  int
+	why  string
+}{
+	"(*compiledSequenceExpr).emitGetter": {true, 0, "the empty-sequence path emits nothing; the parser never builds an empty SequenceExpression (parseParenthesisedExpression answers `()` with a BadExpression, parseExpression starts from one operand)"},
 }
 
 // emitAuditedSummaries: functions whose net emission is known by reading and cannot be derived.
@@ -210,6 +220,7 @@ var emitAuditedSummaries = map[string]struct {
 	eff int
 	why string
 }{
+	"(*compiler).compileExpression": {0, "builds the compiledExpr tree for a syntax node; bytecode is emitted later by the emit* methods of the result (nested function bodies are compiled into their own Program)"},
 	"(*compiler).evalConst": {0, "runs the expression in a scratch VM: emits into a throw-away Program, or truncates c.p.code back to savedPc before returning"},
 }
 
@@ -219,6 +230,7 @@ type effSet struct {
 	throws  bool // some path ends in an unconditional run-time throw
 	sample  map[int]string
 	whys    map[string]int
+	joinBad []string // jump targets reached with two different depths
 }
 
 func (e *effSet) unk(why string) {
@@ -247,9 +259,12 @@ type emitEval struct {
 	flagM     map[string]int // compiledExpr method name -> index of the flag among the call's Args (invoke: receiver excluded)
 	ceI       *types.Interface
 	flagged   map[*ssa.Function]int // function -> index into Params of the flag
+	seed      map[*ssa.Function]bool // implementations of the compiledExpr flag methods (incl. promoted base methods)
 	mayEmit   map[*ssa.Function]bool
 	switcher  map[*ssa.Function]bool // assigns compiler.p or Program.code wholesale
 	memo      map[string]*effSet
+	prev      map[string]*effSet // results of the previous fixed-point round, read by recursive calls
+	cycleHit  bool
 	busy      map[string]bool
 	throwers  map[*ssa.Function]bool
 	pathLimit int
@@ -297,11 +312,17 @@ func (ev *emitEval) eval(f *ssa.Function, F int) *effSet {
 		ev.memo[k] = out
 		return out
 	}
-	if ev.busy[k] || len(f.Blocks) == 0 || ev.switcher[f] {
-		out.unknown = 1
-		if !ev.busy[k] {
-			ev.memo[k] = out
+	if ev.busy[k] {
+		// recursion: answer with the previous round's approximation (least fixed point, see solve)
+		ev.cycleHit = true
+		if pr, ok := ev.prev[k]; ok {
+			return pr
 		}
+		return out // nothing known to complete yet
+	}
+	if len(f.Blocks) == 0 || ev.switcher[f] {
+		out.unk("emits into a swapped Program")
+		ev.memo[k] = out
 		return out
 	}
 	ev.busy[k] = true
@@ -353,12 +374,21 @@ func (ev *emitEval) eval(f *ssa.Function, F int) *effSet {
 		return -1
 	}
 
+	holes, patches := ev.placeholders(f)
+	pend := map[ssa.Value]int{} // placeholder index value -> depth at its target when the jump is taken
+	dead := false               // the straight line is unreachable (after an unconditional jump)
 	budget := ev.pathLimit
 	onPath := map[*ssa.BasicBlock]int{}
 	decided := map[string]bool{}
 	var trace []string
 	var walk func(b *ssa.BasicBlock, delta int)
 	walk = func(b *ssa.BasicBlock, delta int) {
+		savedPend, savedDead := pend, dead
+		pend = make(map[ssa.Value]int, len(savedPend))
+		for k, v := range savedPend {
+			pend[k] = v
+		}
+		defer func() { pend, dead = savedPend, savedDead }()
 		budget--
 		if budget < 0 {
 			out.unk("path budget")
@@ -387,6 +417,10 @@ func (ev *emitEval) eval(f *ssa.Function, F int) *effSet {
 				if b == f.Recover {
 					return
 				}
+				if dead || len(pend) > 0 {
+					out.unk("a jump emitted here is patched elsewhere")
+					return
+				}
 				for _, dl := range deltas {
 					out.vals[dl] = true
 					if _, ok := out.sample[dl]; !ok {
@@ -394,6 +428,26 @@ func (ev *emitEval) eval(f *ssa.Function, F int) *effSet {
 					}
 				}
 				return
+			case *ssa.Store:
+				pj, ok := patches[x]
+				if !ok {
+					continue
+				}
+				tj, ok := pend[pj]
+				if !ok || len(deltas) != 1 {
+					out.unk("patch of a placeholder that was not emitted on this path")
+					return
+				}
+				delete(pend, pj)
+				if dead {
+					deltas[0], dead = tj, false
+					trace = append(trace, fmt.Sprintf("<-target(depth %+d)", tj))
+				} else if deltas[0] != tj {
+					out.joinBad = append(out.joinBad, fmt.Sprintf("jump target reached with depth %+d by the jump and %+d by falling through: [%s]", tj, deltas[0], strings.Join(trace, " ")))
+					return
+				} else {
+					trace = append(trace, "<-target")
+				}
 			case *ssa.Go, *ssa.Defer:
 				out.unk("go/defer")
 				return
@@ -411,6 +465,25 @@ func (ev *emitEval) eval(f *ssa.Function, F int) *effSet {
 					if len(com.Args) < 2 {
 						out.unk("emit without arguments")
 						return
+					}
+					if dead {
+						out.unk("code emitted after an unconditional jump")
+						return
+					}
+					if h, ok := holes[x]; ok {
+						if len(deltas) != 1 {
+							out.unk("placeholder after a multi-valued callee")
+							return
+						}
+						pend[h.idx] = deltas[0] + h.taken
+						if h.hasFall {
+							deltas[0] += h.fall
+							trace = append(trace, fmt.Sprintf("%s(fall %+d|taken %+d)", h.name, h.fall, h.taken))
+						} else {
+							dead = true
+							trace = append(trace, fmt.Sprintf("%s(taken %+d)", h.name, h.taken))
+						}
+						continue
 					}
 					elems := sliceElems(com.Args[1])
 					if len(elems) == 0 {
@@ -440,6 +513,14 @@ func (ev *emitEval) eval(f *ssa.Function, F int) *effSet {
 					if !ev.p.InModule(callee) || !ev.mayEmit[callee] {
 						continue
 					}
+					if ev.throwers[callee] {
+						out.throws = true
+						return
+					}
+					if dead {
+						out.unk("code emitted after an unconditional jump")
+						return
+					}
 					F2 := flagNone
 					if gi, ok := ev.flagged[callee]; ok {
 						if gi >= len(com.Args) {
@@ -457,10 +538,17 @@ func (ev *emitEval) eval(f *ssa.Function, F int) *effSet {
 						}
 					}
 					sub := ev.eval(callee, F2)
+					if sub.unknown > 0 {
+						// which of the callee's paths runs here may be correlated with this path: no verdict
+						out.unk("callee undecidable: " + callee.Name())
+						return
+					}
+					if len(sub.joinBad) > 0 {
+						out.unk("callee with a join mismatch: " + callee.Name())
+						return
+					}
 					if len(sub.vals) == 0 {
-						if sub.unknown > 0 {
-							out.unk("callee undecidable: "+callee.Name()+"")
-						} else if sub.throws {
+						if sub.throws {
 							out.throws = true
 						}
 						return
@@ -470,6 +558,10 @@ func (ev *emitEval) eval(f *ssa.Function, F int) *effSet {
 				case com.IsInvoke():
 					name := com.Method.Name()
 					if idx, ok := ev.flagM[name]; ok && ev.isCompiledExprRecv(com.Value.Type()) {
+						if dead {
+							out.unk("code emitted after an unconditional jump")
+							return
+						}
 						switch boolVal(com.Args[idx], 0) {
 						case 1:
 							addAll(1)
@@ -486,6 +578,7 @@ func (ev *emitEval) eval(f *ssa.Function, F int) *effSet {
 				default:
 					// dynamic call or other interface method: all possible callees must agree
 					cs := ev.p.Callees(x)
+					sort.Slice(cs, func(i, j int) bool { return core.FuncName(cs[i]) < core.FuncName(cs[j]) })
 					if len(cs) == 0 {
 						out.unk("dynamic call without resolved callees")
 						return
@@ -498,6 +591,10 @@ func (ev *emitEval) eval(f *ssa.Function, F int) *effSet {
 					}
 					if !any {
 						continue
+					}
+					if dead {
+						out.unk("code emitted after an unconditional jump")
+						return
 					}
 					agreed, first := 0, true
 					okAll := true
@@ -514,7 +611,10 @@ func (ev *emitEval) eval(f *ssa.Function, F int) *effSet {
 							continue // cannot know the flag it receives here
 						}
 						sub := ev.eval(c, flagNone)
-						// use what is decidable about this callee; its undecidable paths are skipped like any other
+						if sub.unknown > 0 {
+							okAll = false
+							break
+						}
 						for v := range sub.vals {
 							if first {
 								agreed, first = v, false
@@ -572,6 +672,135 @@ func (ev *emitEval) eval(f *ssa.Function, F int) *effSet {
 	walk(f.Blocks[0], 0)
 	ev.memo[k] = out
 	return out
+}
+
+type hole struct {
+	idx         ssa.Value // the value of len(code) taken just before the placeholder
+	name        string
+	fall, taken int
+	hasFall     bool
+}
+
+// placeholders finds the forward-jump idiom of the compiler:
+//
+//	j := len(c.p.code); c.emit(nil); ...; c.p.code[j] = jne(len(c.p.code) - j)
+//
+// holes: the emit(nil) calls whose slot index j is later assigned exactly one jump type in the
+// same function; patches: those assignments. Jump effects come from the exec methods.
+func (ev *emitEval) placeholders(f *ssa.Function) (map[*ssa.Call]hole, map[*ssa.Store]ssa.Value) {
+	holes := map[*ssa.Call]hole{}
+	patches := map[*ssa.Store]ssa.Value{}
+	codeF, err := ev.p.Field(core.GojaPath, "Program", "code")
+	if err != nil {
+		return holes, patches
+	}
+	isCodeLen := func(v ssa.Value) bool {
+		c, ok := v.(*ssa.Call)
+		if !ok {
+			return false
+		}
+		b, ok := c.Call.Value.(*ssa.Builtin)
+		if !ok || b.Name() != "len" || len(c.Call.Args) != 1 {
+			return false
+		}
+		ld, ok := c.Call.Args[0].(*ssa.UnOp)
+		return ok && ld.Op == token.MUL && core.FieldOf(ld.X) == codeF
+	}
+	// patch stores by index value
+	byIdx := map[ssa.Value][]*ssa.Store{}
+	for _, b := range f.Blocks {
+		for _, in := range b.Instrs {
+			st, ok := in.(*ssa.Store)
+			if !ok {
+				continue
+			}
+			ia, ok := st.Addr.(*ssa.IndexAddr)
+			if !ok || !isCodeLen(ia.Index) {
+				continue
+			}
+			if ld, ok := ia.X.(*ssa.UnOp); !ok || ld.Op != token.MUL || core.FieldOf(ld.X) != codeF {
+				continue
+			}
+			byIdx[ia.Index] = append(byIdx[ia.Index], st)
+		}
+	}
+	for _, b := range f.Blocks {
+		var lastLen ssa.Value
+		for _, in := range b.Instrs {
+			c, ok := in.(*ssa.Call)
+			if !ok {
+				continue
+			}
+			if isCodeLen(c) {
+				lastLen = c
+				continue
+			}
+			callee := c.Call.StaticCallee()
+			if callee == nil {
+				if _, isB := c.Call.Value.(*ssa.Builtin); !isB {
+					cs := ev.p.Callees(c)
+					for _, g := range cs {
+						if ev.mayEmit[g] {
+							lastLen = nil
+						}
+					}
+				}
+				continue
+			}
+			if callee != ev.emit {
+				if ev.mayEmit[callee] {
+					lastLen = nil // something was emitted between len() and the placeholder
+				}
+				continue
+			}
+			elems := sliceElems(c.Call.Args[1])
+			if len(elems) != 1 || lastLen == nil {
+				lastLen = nil
+				continue
+			}
+			k, ok := elems[0].(*ssa.Const)
+			if !ok || !k.IsNil() {
+				lastLen = nil
+				continue
+			}
+			sts := byIdx[lastLen]
+			idx := lastLen
+			lastLen = nil
+			if len(sts) == 0 {
+				continue
+			}
+			var typ types.Type
+			same := true
+			for _, st := range sts {
+				mi, ok := st.Val.(*ssa.MakeInterface)
+				if !ok {
+					same = false
+					break
+				}
+				if typ == nil {
+					typ = mi.X.Type()
+				} else if !types.Identical(typ, mi.X.Type()) {
+					same = false
+				}
+			}
+			if !same || typ == nil {
+				continue
+			}
+			be := branches(ev.sp, ev.pc, execOf(ev.p, typ))
+			if !be.OK || len(be.Taken) != 1 || len(be.Fall) > 1 {
+				continue
+			}
+			h := hole{idx: idx, name: core.TypeShort(typ), taken: be.Taken[0]}
+			if len(be.Fall) == 1 {
+				h.hasFall, h.fall = true, be.Fall[0]
+			}
+			holes[c] = h
+			for _, st := range sts {
+				patches[st] = idx
+			}
+		}
+	}
+	return holes, patches
 }
 
 // condKey gives two evaluations of the same side-effect-free test (a comparison of loads through
@@ -671,7 +900,7 @@ func newEmitEval(p *core.Prog) (*emitEval, error) {
 	}
 	ev := &emitEval{p: p, sp: sp, pc: pc, emit: emit, instrT: instrT, instrI: instrT.Underlying().(*types.Interface),
 		ceI: ce.Underlying().(*types.Interface), flagM: map[string]int{}, flagged: map[*ssa.Function]int{},
-		mayEmit: map[*ssa.Function]bool{}, switcher: map[*ssa.Function]bool{}, memo: map[string]*effSet{}, busy: map[string]bool{}, pathLimit: 20000}
+		mayEmit: map[*ssa.Function]bool{}, switcher: map[*ssa.Function]bool{}, memo: map[string]*effSet{}, prev: map[string]*effSet{}, busy: map[string]bool{}, pathLimit: 20000}
 	for i := 0; i < ev.ceI.NumMethods(); i++ {
 		m := ev.ceI.Method(i)
 		sig := m.Type().(*types.Signature)
@@ -681,6 +910,12 @@ func newEmitEval(p *core.Prog) (*emitEval, error) {
 		}
 	}
 	fl, _ := flaggedFuncs(p, ev.ceI)
+	ev.seed = map[*ssa.Function]bool{}
+	for _, f := range p.Funcs {
+		if _, ok := ev.flagM[f.Name()]; ok && f.Signature.Recv() != nil && f.Parent() == nil && fl[f] != nil {
+			ev.seed[f] = true
+		}
+	}
 	for f, idxs := range fl {
 		if len(idxs) == 1 {
 			for i := range idxs {
@@ -746,12 +981,53 @@ func newEmitEval(p *core.Prog) (*emitEval, error) {
 	return ev, nil
 }
 
+// solve evaluates every emitting function to a fixed point: a recursive call reads the result of
+// the previous round (initially "no path completes"), rounds repeat until no summary changes.
+func (ev *emitEval) solve() int {
+	var fns []*ssa.Function
+	for _, f := range ev.p.Funcs {
+		if ev.mayEmit[f] && f != ev.emit && f.Name() != "exec" {
+			fns = append(fns, f)
+		}
+	}
+	sort.Slice(fns, func(i, j int) bool { return core.FuncName(fns[i]) < core.FuncName(fns[j]) })
+	sig := func(e *effSet) string { return fmt.Sprintf("%s/%d/%d/%v", setStr(e.vals), e.unknown, len(e.joinBad), e.throws) }
+	rounds := 0
+	for rounds < 8 {
+		rounds++
+		ev.memo = map[string]*effSet{}
+		ev.cycleHit = false
+		for _, f := range fns {
+			if _, fl := ev.flagged[f]; fl {
+				ev.eval(f, flagTrue)
+				ev.eval(f, flagFalse)
+			}
+			ev.eval(f, flagNone)
+		}
+		stable := true
+		if ev.cycleHit {
+			for k, e := range ev.memo {
+				if pr, ok := ev.prev[k]; !ok || sig(pr) != sig(e) {
+					stable = false
+					break
+				}
+			}
+		}
+		ev.prev = ev.memo
+		if stable {
+			break
+		}
+	}
+	return rounds
+}
+
 func runEmitBalance(p *core.Prog) *core.Result {
-	res := core.NewResult("R-EMITBALANCE", 40)
+	res := core.NewResult("R-EMITBALANCE", 150)
 	ev, err := newEmitEval(p)
 	if err != nil {
 		return res.Fail(err)
 	}
+	res.Count("fixed-point rounds", ev.solve())
 	var fns []*ssa.Function
 	for f := range ev.flagged {
 		fns = append(fns, f)
@@ -763,7 +1039,7 @@ func runEmitBalance(p *core.Prog) *core.Result {
 		// helpers the flag is handed to may also consume operands (emitObjectPattern consumes the
 		// source value): for them the two flag values must differ by exactly one slot.
 		isImpl := false
-		if _, ok := ev.flagM[f.Name()]; ok && f.Signature.Recv() != nil && types.Implements(f.Signature.Recv().Type(), ev.ceI) {
+		if _, ok := ev.flagM[f.Name()]; ok && f.Signature.Recv() != nil && f.Parent() == nil && strings.HasPrefix(core.TypeShort(f.Signature.Recv().Type()), "*") && ev.seed[f] {
 			isImpl = true
 		}
 		base, span := 0, 1
@@ -801,8 +1077,20 @@ func runEmitBalance(p *core.Prog) *core.Result {
 			pos := p.Pos(f.Pos())
 			undecided += r.unknown
 			bad := false
+			for i, jb := range r.joinBad {
+				bad = true
+				k2 := key + ":join"
+				if i > 0 {
+					k2 = fmt.Sprintf("%s:join#%d", key, i+1)
+				}
+				res.Bad(k2, pos, jb)
+			}
 			for v := range r.vals {
 				decidedPaths++
+				if ap, ok := emitAuditedPaths[core.FuncName(f)]; ok && ap.flag == (F == flagTrue) && ap.val == v && v != want {
+					res.OK(key+":audited path", pos, "audited: "+ap.why)
+					continue
+				}
 				if v != want {
 					bad = true
 					res.Bad(key, pos, fmt.Sprintf("a path emits bytecode with net operand-stack effect %+d, want %+d: [%s]", v, want, r.sample[v]))
@@ -822,6 +1110,92 @@ func runEmitBalance(p *core.Prog) *core.Result {
 			res.OK(key, pos, fmt.Sprintf("decidable paths all %+d (%d undecidable skipped) e.g. [%s]", want, r.unknown, r.sample[want]))
 		}
 	}
+	// statements: whatever compileStatement dispatches to leaves the operand stack as it found it
+	if cs, err := p.GojaMethod("compiler", "compileStatement"); err == nil {
+		seen := map[*ssa.Function]bool{}
+		var stmts []*ssa.Function
+		core.AllInstrs(cs, func(in ssa.Instruction) {
+			c, ok := in.(*ssa.Call)
+			if !ok {
+				return
+			}
+			g := c.Call.StaticCallee()
+			if g == nil || !p.InModule(g) || !ev.mayEmit[g] || seen[g] || g == ev.emit {
+				return
+			}
+			if _, fl := ev.flagged[g]; fl {
+				return
+			}
+			seen[g] = true
+			stmts = append(stmts, g)
+		})
+		sort.Slice(stmts, func(i, j int) bool { return core.FuncName(stmts[i]) < core.FuncName(stmts[j]) })
+		res.Count("statement compilers", len(stmts))
+		for _, g := range stmts {
+			r := ev.eval(g, flagNone)
+			key := fmt.Sprintf("%s:statement leaves the stack balanced", core.FuncName(g))
+			pos := p.Pos(g.Pos())
+			undecided += r.unknown
+			bad := false
+			for i, jb := range r.joinBad {
+				bad = true
+				res.Bad(fmt.Sprintf("%s:join#%d", key, i+1), pos, jb)
+			}
+			for v := range r.vals {
+				decidedPaths++
+				if v != 0 {
+					bad = true
+					res.Bad(key, pos, fmt.Sprintf("a path emits bytecode with net operand-stack effect %+d, want 0: [%s]", v, r.sample[v]))
+				}
+			}
+			if bad {
+				continue
+			}
+			if len(r.vals) == 0 {
+				if r.unknown == 0 {
+					res.OK(key, pos, "every path ends in a compile-time error or an unconditional run-time throw")
+				} else {
+					res.Inform(key, pos, fmt.Sprintf("no fully decidable path (%d undecidable: %s)", r.unknown, r.whyStr()))
+				}
+				continue
+			}
+			res.OK(key, pos, fmt.Sprintf("decidable paths all 0 (%d undecidable skipped) e.g. [%s]", r.unknown, r.sample[0]))
+		}
+	}
+	// helpers without the flag: when every path is decidable, all paths agree on one net effect
+	nHelpers := 0
+	for _, g := range p.Funcs {
+		if _, fl := ev.flagged[g]; fl || !ev.mayEmit[g] || g == ev.emit || g.Name() == "exec" {
+			continue
+		}
+		if _, ok := emitAuditedSummaries[core.FuncName(g)]; ok {
+			continue
+		}
+		r := ev.eval(g, flagNone)
+		if r.unknown > 0 || len(r.vals) == 0 {
+			continue
+		}
+		nHelpers++
+		key := fmt.Sprintf("%s:all paths agree", core.FuncName(g))
+		pos := p.Pos(g.Pos())
+		if len(r.joinBad) > 0 {
+			res.Bad(key+":join", pos, r.joinBad[0])
+			continue
+		}
+		if len(r.vals) == 1 {
+			for v := range r.vals {
+				res.OK(key, pos, fmt.Sprintf("%+d on every path e.g. [%s]", v, r.sample[v]))
+			}
+			continue
+		}
+		var parts []string
+		for v := range r.vals {
+			parts = append(parts, fmt.Sprintf("%+d via [%s]", v, r.sample[v]))
+		}
+		sort.Strings(parts)
+		res.Bad(key, pos, "paths of this emitter disagree on the net operand-stack effect of what they emit, so one of them unbalances the caller's sequence: "+strings.Join(parts, "; "))
+	}
+	res.Count("fully decidable helpers", nHelpers)
 	if dbg := os.Getenv("DEBUG_FUNCS"); dbg != "" {
 		for _, f := range p.Funcs {
 			for _, w := range strings.Split(dbg, ",") {
